@@ -4,7 +4,8 @@
    client form values (parseRequestBody) - is taken back as far as it is still in place untouched,
    RetryAttempt restarts at 0, clientFormDataMerged is cleared; then every attempt runs the three
    middlewares again. Header slices carry an identity (address of the first element), cookies are
-   pointers, form values are plain strings (position + value is all the code can compare).
+   pointers, form values are plain strings (position + value, plus the identity and length of the key's slice right
+   after the merge: a slice that is not longer and has another backing array was replaced by the caller).
    No proofs in this file. *)
 From Coq Require Import List Arith Bool.
 Import ListNotations.
@@ -28,16 +29,17 @@ Record merged := {
   m_cookies : list nat;                 (* the client cookies appended ... *)
   m_cookies_at : nat;                   (* ... at this index *)
   m_form : list (nat * list rval);      (* the client form values added ... *)
-  m_form_at : list (nat * nat) }.       (* ... per key at this index *)
+  m_form_at : list (nat * nat);         (* ... per key at this index *)
+  m_form_after : list (nat * hslice) }. (* FormData[key] right after the merge: backing array and length *)
 Definition merged0 : merged :=
-  {| m_headers := []; m_cookies := []; m_cookies_at := 0; m_form := []; m_form_at := [] |}.
+  {| m_headers := []; m_cookies := []; m_cookies_at := 0; m_form := []; m_form_at := []; m_form_after := [] |}.
 Definition merged_empty (m : merged) : bool :=
   match m_headers m, m_cookies m, m_form m with [], [], [] => true | _, _, _ => false end.
 
 Record rq := {
   q_headers : list (nat * hslice);
   q_cookies : list nat;                 (* []*http.Cookie: pointer identities *)
-  q_form : list (nat * list rval);
+  q_form : list (nat * hslice);          (* url.Values: key -> []string with the identity of its backing array *)
   q_attempt : nat;                      (* RetryAttempt *)
   q_form_merged : bool;                 (* clientFormDataMerged *)
   q_merged : merged;
@@ -79,15 +81,28 @@ Definition unmerge_cookies (m : merged) (cs : list nat) : list nat :=
       then splice (m_cookies_at m) n cs else cs
   end.
 
-Definition unmerge_form_key (ats : list (nat * nat)) (f : list (nat * list rval)) (kv : nat * list rval)
-  : list (nat * list rval) :=
-  let cur := match rget (fst kv) f with Some l => l | None => [] end in
-  let at_ := match rget (fst kv) ats with Some a => a | None => 0 end in
+Definition fvals (k : nat) (f : list (nat * hslice)) : list rval :=
+  match rget k f with Some s => hs_vals s | None => [] end.
+
+Definition unmerge_form_key (m : merged) (f : list (nat * hslice)) (kv : nat * list rval)
+  : list (nat * hslice) :=
+  let cur := fvals (fst kv) f in
+  let cid := match rget (fst kv) f with Some s => hs_id s | None => 0 end in
+  let at_ := match rget (fst kv) (m_form_at m) with Some a => a | None => 0 end in
   let n := length (snd kv) in
-  if (at_ + n <=? length cur) && leqb (firstn n (skipn at_ cur)) (snd kv)
+  let replaced :=                         (* not longer and another backing array: Set since the merge *)
+    match rget (fst kv) (m_form_after m), cur with
+    | Some after, _ :: _ =>
+        match hs_vals after with
+        | [] => false
+        | _ :: _ => (length cur <=? length (hs_vals after)) && negb (cid =? hs_id after)
+        end
+    | _, _ => false
+    end in
+  if (at_ + n <=? length cur) && negb replaced && leqb (firstn n (skipn at_ cur)) (snd kv)
   then match splice at_ n cur with
        | [] => rdel (fst kv) f
-       | rest => rset (fst kv) rest f
+       | rest => rset (fst kv) {| hs_id := cid; hs_vals := rest |} f
        end
   else f.
 
@@ -98,7 +113,7 @@ Definition unmerge (p : prologue) (r : rq) : rq :=
     let m := q_merged r in
     {| q_headers := fold_left unmerge_header (m_headers m) (q_headers r);
        q_cookies := unmerge_cookies m (q_cookies r);
-       q_form := fold_left (unmerge_form_key (m_form_at m)) (m_form m) (q_form r);
+       q_form := fold_left (unmerge_form_key m) (m_form m) (q_form r);
        q_attempt := 0; q_form_merged := false; q_merged := merged0; q_next := q_next r |}.
 
 (* ---------- one attempt: parseRequestHeader, parseRequestCookie, parseRequestBody ---------- *)
@@ -112,26 +127,34 @@ Definition merge_header (st : list (nat * hslice) * list (nat * hslice) * nat) (
   then let cp := {| hs_id := nx; hs_vals := snd kv |} in (rset (fst kv) cp hs, rset (fst kv) cp rec, S nx)
   else st.
 
-Definition add_values (f : list (nat * list rval)) (kv : nat * list rval) : list (nat * list rval) :=
-  rset (fst kv) ((match rget (fst kv) f with Some l => l | None => [] end) ++ snd kv) f.
+(* url.Values.Add for every value: append to the key's slice (a new slice with a new backing array for a new key) *)
+Definition add_values (st : list (nat * hslice) * nat) (kv : nat * list rval) : list (nat * hslice) * nat :=
+  let '(f, nx) := st in
+  match rget (fst kv) f with
+  | Some s => (rset (fst kv) {| hs_id := hs_id s; hs_vals := hs_vals s ++ snd kv |} f, nx)
+  | None => (rset (fst kv) {| hs_id := nx; hs_vals := snd kv |} f, S nx)
+  end.
 
 Definition attempt (c : cl) (r : rq) : rq :=
   let m := q_merged r in
   let '(hs, rec, nx) := fold_left merge_header (c_headers c) (q_headers r, m_headers m, q_next r) in
   let ck := match c_cookies c with [] => false | _ => q_attempt r =? 0 end in
   let fm := match c_form c with [] => false | _ => negb (q_form_merged r) end in
+  let '(f', nx') := if fm then fold_left add_values (c_form c) (q_form r, nx) else (q_form r, nx) in
   {| q_headers := hs;
      q_cookies := if ck then q_cookies r ++ c_cookies c else q_cookies r;
-     q_form := if fm then fold_left add_values (c_form c) (q_form r) else q_form r;
+     q_form := f';
      q_attempt := q_attempt r;
      q_form_merged := if fm then true else q_form_merged r;
      q_merged := {| m_headers := rec;
                     m_cookies := if ck then c_cookies c else m_cookies m;
                     m_cookies_at := if ck then length (q_cookies r) else m_cookies_at m;
                     m_form := if fm then c_form c else m_form m;
-                    m_form_at := if fm then map (fun kv => (fst kv, length (match rget (fst kv) (q_form r) with Some l => l | None => [] end))) (c_form c)
-                                 else m_form_at m |};
-     q_next := nx |}.
+                    m_form_at := if fm then map (fun kv => (fst kv, length (fvals (fst kv) (q_form r)))) (c_form c)
+                                 else m_form_at m;
+                    m_form_after := if fm then map (fun kv => (fst kv, match rget (fst kv) f' with Some s => s | None => {| hs_id := 0; hs_vals := [] |} end)) (c_form c)
+                                    else m_form_after m |};
+     q_next := nx' |}.
 
 Definition bump (r : rq) : rq :=
   {| q_headers := q_headers r; q_cookies := q_cookies r; q_form := q_form r; q_attempt := S (q_attempt r);
@@ -139,7 +162,8 @@ Definition bump (r : rq) : rq :=
 
 (* what one attempt puts on the wire *)
 Definition sent (r : rq) : list (nat * list rval) * list nat * list (nat * list rval) :=
-  (map (fun kv => (fst kv, hs_vals (snd kv))) (q_headers r), q_cookies r, q_form r).
+  (map (fun kv => (fst kv, hs_vals (snd kv))) (q_headers r), q_cookies r,
+   map (fun kv => (fst kv, hs_vals (snd kv))) (q_form r)).
 
 (* the retry loop: `budget` = MaxRetries (>= 0), the origin fails the first `fails` attempts.
    Returns the request after the execution and what every attempt sent. *)
@@ -172,11 +196,12 @@ Definition uapply (r : rq) (u : uop) : rq :=
       {| q_headers := q_headers r; q_cookies := q_cookies r ++ [ck]; q_form := q_form r; q_attempt := q_attempt r;
          q_form_merged := q_form_merged r; q_merged := q_merged r; q_next := q_next r |}
   | USetForm k v =>
-      {| q_headers := q_headers r; q_cookies := q_cookies r; q_form := rset k [v] (q_form r); q_attempt := q_attempt r;
-         q_form_merged := q_form_merged r; q_merged := q_merged r; q_next := q_next r |}
+      {| q_headers := q_headers r; q_cookies := q_cookies r; q_form := rset k {| hs_id := q_next r; hs_vals := [v] |} (q_form r);
+         q_attempt := q_attempt r; q_form_merged := q_form_merged r; q_merged := q_merged r; q_next := S (q_next r) |}
   | UAddForm k v =>
-      {| q_headers := q_headers r; q_cookies := q_cookies r; q_form := add_values (q_form r) (k, [v]); q_attempt := q_attempt r;
-         q_form_merged := q_form_merged r; q_merged := q_merged r; q_next := q_next r |}
+      let '(f', nx') := add_values (q_form r, q_next r) (k, [v]) in
+      {| q_headers := q_headers r; q_cookies := q_cookies r; q_form := f'; q_attempt := q_attempt r;
+         q_form_merged := q_form_merged r; q_merged := q_merged r; q_next := nx' |}
   end.
 
 (* ---------- histories of one Request object ---------- *)
